@@ -203,6 +203,12 @@ VH_GROUP(refs)
     if (ctx.take()) mp::mp_for_each<L>(RefDst<gil::packed_dynamic_channel_reference<uint8_t, 2, true>, uint8_t, true>{ctx, "dref<u8,2>@5", 5, 2});
     if (ctx.take()) mp::mp_for_each<L>(RefDst<gil::packed_dynamic_channel_reference<uint16_t, 7, true>, uint16_t, true>{ctx, "dref<u16,7>@9", 9, 7});
     if (ctx.take()) mp::mp_for_each<L>(RefDst<gil::packed_dynamic_channel_reference<uint32_t, 12, false>, uint32_t, true>{ctx, "cdref<u32,12>@13", 13, 12});
+    // 64-bit bit fields: a channel that crosses bit 32 (mask and shift must be done in the bit field's own width), const and mutable
+    if (ctx.take()) mp::mp_for_each<L>(RefDst<gil::packed_channel_reference<uint64_t, 30, 10, false>, uint64_t, false>{ctx, "cpref<u64,30,10>", 30, 10});
+    if (ctx.take()) mp::mp_for_each<L>(RefDst<gil::packed_channel_reference<uint64_t, 30, 10, true>, uint64_t, false>{ctx, "pref<u64,30,10>", 30, 10});
+    if (ctx.take()) mp::mp_for_each<L>(RefDst<gil::packed_channel_reference<uint64_t, 44, 12, false>, uint64_t, false>{ctx, "cpref<u64,44,12>", 44, 12});
+    if (ctx.take()) mp::mp_for_each<L>(RefDst<gil::packed_dynamic_channel_reference<uint64_t, 10, false>, uint64_t, true>{ctx, "cdref<u64,10>@27", 27, 10});
+    if (ctx.take()) { ++ctx.witness["ref_models_64bit_field"]; }
 }
 
 VH_MAIN
